@@ -72,18 +72,32 @@ Base == [
   DatabasePath |-> "set", KeepAlive |-> "absent", CncMode |-> "absent", Source |-> "file",
   BindAddr |-> "example", Mode |-> "standalone", SSRemote |-> "na" ]
 
-\* ---------------------------------------------------------------- documented-invalid values
-\* A value is invalid when it cannot denote what the README says the field is.
+\* ---------------------------------------------------------------- the three outcome classes
+\* Every row falls into exactly one class:
+\*   "documented-accept"  every value is of the documented kind: the configuration must be accepted and every
+\*                        processed field must have the documented meaning;
+\*   "documented-reject"  some value does not have the SHAPE the documents give the field (not base64, not a list, not
+\*                        a number, a ProxyBook value that is not a two-element array, an address that is not IP:PORT,
+\*                        no private key at all): an error is demanded;
+\*   "undocumented"       every value has the documented shape, but some value's CONTENT is something no document
+\*                        speaks about (a key or UID of another length, a protocol name other than tcp/udp, an empty
+\*                        address, no RedirAddr ...): nothing is demanded beyond "no panic" - what the code does is
+\*                        recorded as an observation. Outputs that do not depend on the undocumented value keep their
+\*                        documented meaning if the configuration happens to be accepted.
+Accept == "documented-accept"
+Reject == "documented-reject"
+
+\* values of the wrong shape (documented-reject)
 Invalid == [
   \* "Its value is an array whose first element is the protocol, and the second element is an IP:PORT string"
-  ProxyBook    |-> {"len0", "len1", "len3", "unknownnet", "emptynet", "emptyaddr", "noport", "badport", "notarray", "goodbad"},
+  ProxyBook    |-> {"len0", "len1", "len3", "noport", "badport", "notarray", "goodbad"},
   RedirAddr    |-> {},
   \* "the static curve25519 Diffie-Hellman private key encoded in base64"; ck-server refuses to start without one
-  PrivateKey   |-> {"absent", "empty", "short", "long", "badb64"},
+  PrivateKey   |-> {"absent", "empty", "badb64"},
   \* "You can leave this empty"; anything else that is not a UID: see UndocOutcome
   AdminUID     |-> {},
-  \* "a list of UIDs"
-  BypassUID    |-> {"short", "long", "badb64", "goodshort", "notlist"},
+  \* "a list of UIDs", each "in base64"
+  BypassUID    |-> {"badb64", "notlist"},
   DatabasePath |-> {},
   \* "the number of seconds"
   KeepAlive    |-> {"str"},
@@ -98,7 +112,11 @@ IsInvalid(o, v) == v \in Invalid[o]
 \* values for which no document says whether the configuration is to be accepted
 UndocOutcome(c) ==
   \/ c.RedirAddr \in {"absent", "empty", "v6bracket", "v4badport"}   \* no default and no "required" is documented
-  \/ c.ProxyBook = "upnet"
+  \* the README names no set of protocols, and says nothing about an address that is the empty string
+  \/ c.ProxyBook \in {"upnet", "unknownnet", "emptynet", "emptyaddr"}
+  \* no document gives the length of a key or of a UID (ck-server -key / -uid happen to print 32 / 16 bytes)
+  \/ c.PrivateKey \in {"short", "long"}
+  \/ c.BypassUID \in {"short", "long", "goodshort"}
   \* "This field [DatabasePath] also has no effect if AdminUID isn't a valid UID": an invalid AdminUID is
   \* either refused or ignored - the README allows both
   \/ c.AdminUID \in {"short", "long", "badb64"}
@@ -130,14 +148,17 @@ BypassSet(c) == BypassCfg(c.BypassUID) \cup (IF AdminValid(c) THEN {"admin"} ELS
 Expected(c) ==
   LET bad == \E o \in OptNames : IsInvalid(o, c[o])
   IN [
-    outcome   |-> IF bad THEN "error" ELSE IF UndocOutcome(c) THEN U ELSE "ok",
+    outcome   |-> IF bad THEN Reject ELSE IF UndocOutcome(c) THEN U ELSE Accept,
     \* README RedirAddr: "the redirection address when the incoming traffic is not from a Cloak client"
     redirHost |-> CASE c.RedirAddr \in {"v4", "v4port"} -> "h4" [] c.RedirAddr \in {"v6bare", "v6port"} -> "h6" [] OTHER -> U,
     \* a port given is the port used; none given: the port the visitor connected to (State.RedirPort empty)
     redirPort |-> CASE c.RedirAddr \in {"v4port", "v6port"} -> "P" [] c.RedirAddr \in {"v4", "v6bare"} -> "none" [] OTHER -> U,
     \* README ProxyBook: key = ProxyMethod (case-sensitive), value = [protocol, IP:PORT]
-    proxyBook |-> IF c.ProxyBook = "upnet" THEN {U} ELSE Book(c.ProxyBook),
-    bypass    |-> BypassSet(c),
+    proxyBook |-> IF c.ProxyBook \in {"upnet", "unknownnet", "emptynet", "emptyaddr"} THEN {U} ELSE Book(c.ProxyBook),
+    \* the exact set of unrestricted users; unknown when an entry of another length is listed
+    bypass    |-> IF c.BypassUID \in {"short", "long", "goodshort"} THEN {U} ELSE BypassSet(c),
+    \* the key reaches the state verbatim
+    privKey   |-> IF c.PrivateKey = "set" THEN "key" ELSE U,
     \* README AdminUID: "the UID of the admin user"
     adminUID  |-> CASE AdminValid(c) -> "admin" [] c.AdminUID \in {"absent", "empty"} -> "none" [] OTHER -> U,
     \* README KeepAlive: N seconds; "Zero or negative value disables it. Default is 0 (disabled)"
@@ -244,9 +265,9 @@ TypeOK == /\ idx \in 0..Len(Order)
 
 Total == Done =>
   LET e == Expected(cfg) IN
-    /\ e.outcome \in {"ok", "error", U}
+    /\ e.outcome \in {Accept, Reject, U}
     /\ e.redirHost \in {"h4", "h6", U} /\ e.redirPort \in {"P", "none", U}
-    /\ e.proxyBook \subseteq BookTokens /\ e.bypass \subseteq BypassTokens
+    /\ e.proxyBook \subseteq BookTokens /\ e.bypass \subseteq BypassTokens \cup {U} /\ e.privKey \in {"key", U}
     /\ e.adminUID \in {"admin", "none", U} /\ e.keepAlive \in {"N", "disabled"}
     /\ e.panel \in {"local", "void", U} /\ e.dbFile \in {"created", "untouched", "n/a", U}
     /\ e.bindRaw \in Values.BindAddr \cup {"empty"}
@@ -256,10 +277,10 @@ Total == Done =>
 \* an error is demanded exactly for malformed values; a well-formed row whose every value is documented is accepted
 ErrorIff == Done =>
   LET e == Expected(cfg) IN
-    /\ e.outcome = "error" <=> \E o \in OptNames : cfg[o] \in Invalid[o]
-    /\ (e.outcome = "ok" /\ cfg.CncMode # "true") =>
-          /\ e.redirHost # U /\ e.redirPort # U /\ U \notin e.proxyBook /\ e.adminUID # U /\ e.panel # U /\ e.dbFile # U
-    /\ cfg = Base => e.outcome = "ok"
+    /\ e.outcome = Reject <=> \E o \in OptNames : cfg[o] \in Invalid[o]
+    /\ (e.outcome = Accept /\ cfg.CncMode # "true") =>
+          /\ e.privKey # U /\ U \notin e.bypass /\ e.redirHost # U /\ e.redirPort # U /\ U \notin e.proxyBook /\ e.adminUID # U /\ e.panel # U /\ e.dbFile # U
+    /\ cfg = Base => e.outcome = Accept
 
 \* README sentences, each stated a second time independently of the CASE arms above
 Sentences == Done =>
@@ -273,7 +294,7 @@ Sentences == Done =>
     /\ cfg.AdminUID = "set" /\ cfg.DatabasePath = "set" /\ cfg.CncMode # "true" => e.panel = "local" /\ e.dbFile = "created"
     \* AdminUID "You can leave this empty if you only ever add users to BypassUID"
     /\ (cfg.AdminUID \in {"absent", "empty"} /\ cfg.BypassUID = "one" /\ \A o \in OptNames \ {"AdminUID", "BypassUID"} : cfg[o] = Base[o])
-          => e.outcome = "ok" /\ e.bypass = {"b1"}
+          => e.outcome = Accept /\ e.bypass = {"b1"}
     \* ProxyBook keys are case-sensitive: nothing is folded, nothing is merged
     /\ cfg.ProxyBook = "mixedname" => e.proxyBook = {"M1/tcp/a1"}
     /\ cfg.ProxyBook = "casepair" => Cardinality(e.proxyBook) = 2
@@ -294,10 +315,14 @@ BypassExact == Done =>
 \* the places where the documents are silent stay unjudged
 Silent == Done =>
   LET e == Expected(cfg) IN
-    /\ cfg.RedirAddr \in {"absent", "empty", "v6bracket", "v4badport"} => e.redirHost = U /\ e.redirPort = U /\ e.outcome # "ok"
-    /\ cfg.CncMode = "true" => e.outcome # "ok" /\ e.panel = U
-    /\ cfg.AdminUID \in {"short", "long", "badb64"} => e.outcome # "ok" /\ e.adminUID = U /\ ("admin" \in e.bypass => cfg.BypassUID = "withadmin")
-    /\ cfg.ProxyBook = "upnet" => e.outcome # "ok"
+    /\ cfg.RedirAddr \in {"absent", "empty", "v6bracket", "v4badport"} => e.redirHost = U /\ e.redirPort = U /\ e.outcome # Accept
+    /\ cfg.CncMode = "true" => e.outcome # Accept /\ e.panel = U
+    /\ cfg.AdminUID \in {"short", "long", "badb64"} => e.outcome # Accept /\ e.adminUID = U /\ ("admin" \in e.bypass => cfg.BypassUID = "withadmin")
+    /\ cfg.ProxyBook \in {"upnet", "unknownnet", "emptynet", "emptyaddr"} => e.outcome # Accept /\ e.proxyBook = {U}
+    /\ cfg.PrivateKey \in {"short", "long"} => e.outcome # Accept /\ e.privKey = U
+    /\ cfg.BypassUID \in {"short", "long", "goodshort"} => e.outcome # Accept /\ e.bypass = {U}
+    \* an undocumented row is never demanded to fail, a malformed one never left to chance
+    /\ e.outcome = U => ~\E o \in OptNames : cfg[o] \in Invalid[o]
     \* CncMode false / absent, Source inline: no effect at all
     /\ \A v \in {"absent", "false"} : Expected([cfg EXCEPT !.CncMode = v]) = Expected([cfg EXCEPT !.CncMode = "absent"])
     /\ Expected([cfg EXCEPT !.Source = "inline"]) = Expected([cfg EXCEPT !.Source = "file"])
@@ -322,7 +347,7 @@ ListenInv == Done =>
 \* every output column depends on few options: this is what makes t-wise enumeration an adequate cover
 DependsOn == [
   outcome |-> OptNames, redirHost |-> {"RedirAddr"}, redirPort |-> {"RedirAddr"}, proxyBook |-> {"ProxyBook"},
-  bypass |-> {"BypassUID", "AdminUID"}, adminUID |-> {"AdminUID"}, keepAlive |-> {"KeepAlive"},
+  bypass |-> {"BypassUID", "AdminUID"}, privKey |-> {"PrivateKey"}, adminUID |-> {"AdminUID"}, keepAlive |-> {"KeepAlive"},
   panel |-> {"AdminUID", "DatabasePath", "CncMode"}, dbFile |-> {"AdminUID", "DatabasePath", "CncMode"},
   bindRaw |-> {"BindAddr"} ]
 Separable == Done =>
